@@ -377,13 +377,52 @@ func init() {
 	})
 }
 
+// noPanicMonitor: no API call lets a panic of dig's own escape (a panic raised
+// on purpose by a user function and propagated with RecoverFromPanics off is
+// not dig's).
+func noPanicMonitor(c *Ctx) []Violation {
+	st := c.Step
+	c.Hit("api_calls_checked_for_panics")
+	if st.V.Escaped && st.V.PanicVal == nil {
+		return []Violation{{Rule: "C14/" + st.Op.Kind.String() + "-panicked", Detail: fmt.Sprintf("%s panicked: %s", st.Op, st.V.Msg)}}
+	}
+	return nil
+}
+
+// c14FailureUnits: every API call, Visualize with the error of every failed
+// Invoke and String included, on the container states that failures of user
+// functions (constructors, single-value / multi-key / group decorators) leave
+// behind.
+func c14FailureUnits(tier string) []Unit {
+	var units []Unit
+	visErr := Op{Kind: h.OpVisualize, VisErr: -1}
+	a := alpha{scopes: []int{0, 1}, ctors: []*uFunc{pAe, pBe, fG1e}, decos: []*uFunc{dAe, dABe, dGe}, invokes: []*uFunc{iA, iB, iG, iO}, visualize: true, str: true}
+	ops := append(a.ops(), visErr)
+	d, b := 5, explore.Budget{Provides: 2, Decorates: 1, Invokes: 1, Others: 1, Rejected: 1}
+	if !quick(tier) {
+		d, b = 6, explore.Budget{Provides: 3, Decorates: 1, Invokes: 2, Others: 1, Rejected: 1}
+	}
+	for _, f := range []string{"pAe", "pBe", "fG1e", "dAe", "dABe", "dGe"} {
+		for _, beh := range []u.Beh{u.BehErr, u.BehPanic} {
+			for _, rec := range []bool{false, true} {
+				if beh == u.BehErr && rec {
+					continue
+				}
+				units = append(units, Unit{Sc: &Scenario{Name: fmt.Sprintf("after-failures/%s=%v/recover=%v", f, beh, rec), Cfg: h.Config{Recover: rec},
+					Plans: map[string][]u.Beh{f: {beh}}, Prefix: prefixChild, Alphabet: ops, Depth: d, Budget: b, Allowed: onceEach, Monitors: []explore.Monitor{noPanicMonitor}}})
+			}
+		}
+	}
+	return units
+}
+
 func c14Units(tier string) []Unit {
 	inputs := c14Inputs(tier)
 	contexts := c14Contexts()
-	return []Unit{{En: &explore.Enum{
+	return append(c14FailureUnits(tier), Unit{En: &explore.Enum{
 		Name: "inputs-x-contexts", N: len(inputs) * len(contexts), Run: c14Item(inputs, contexts),
 		Describe: func(i int) string {
 			return fmt.Sprintf("%s in context %d", inputs[i/len(contexts)].desc, i%len(contexts))
 		},
-	}}}
+	}})
 }
